@@ -14,27 +14,29 @@ import (
 
 // View is what one endpoint reports about a connection, in a library-neutral form.
 type View struct {
-	HandshakeErr  error
-	Complete      bool
-	Version       uint16
-	Suite         uint16
-	DidResume     bool
-	Proto         string // negotiated application protocol
-	OCSP          []byte // stapled OCSP response as reported by ConnectionState
-	PeerCerts     [][]byte
-	EKM           []byte
-	TLSUnique     []byte // tls-unique channel binding as reported by ConnectionState
-	SNI           string // ConnectionState.ServerName (servers: the name the client asked for)
-	EKMErr        error
-	Read          []byte // application bytes received
-	ReadErr       error  // error that ended reading (io.EOF for a clean close)
-	ReadAfterErr  []byte // bytes delivered by Read calls made AFTER the first error (must stay empty)
-	ReadRecovered bool   // a Read call after the first error returned a nil error
-	TemporaryErrs int    // temporary read errors that were retried (App.RetryTemporary)
-	WriteErrs     []error
-	Panic         interface{}
-	Stack         string
-	Done          bool
+	HandshakeErr         error
+	Complete             bool
+	Version              uint16
+	Suite                uint16
+	DidResume            bool
+	Proto                string // negotiated application protocol
+	OCSP                 []byte // stapled OCSP response as reported by ConnectionState
+	PeerCerts            [][]byte
+	EKM                  []byte
+	TLSUnique            []byte // tls-unique channel binding as reported by ConnectionState
+	SNI                  string // ConnectionState.ServerName (servers: the name the client asked for)
+	EKMErr               error
+	Read                 []byte // application bytes received
+	ReadErr              error  // error that ended reading (io.EOF for a clean close)
+	ReadAfterErr         []byte // bytes delivered by Read calls made AFTER the first error (must stay empty)
+	ReadRecovered        bool   // a Read call after the first error returned a nil error
+	TemporaryErrs        int    // temporary read errors that were retried (App.RetryTemporary)
+	BeforeComplete       bool   // Implicit: ConnectionState().HandshakeComplete before any I/O
+	VerifyHostnameBefore error  // Implicit: VerifyHostname before any I/O (must be an error)
+	WriteErrs            []error
+	Panic                interface{}
+	Stack                string
+	Done                 bool
 	// connection state once the data phase is over (it differs from the above after a renegotiation)
 	AfterComplete  bool
 	AfterVersion   uint16
@@ -51,6 +53,10 @@ type App struct {
 	NoClose bool
 	// CloseWriteAfterWrites: call CloseWrite (send close_notify, keep reading) after the writes
 	CloseWriteAfterWrites bool
+	// Implicit: the application never calls Handshake; its first Write or Read starts it
+	Implicit bool
+	// ReadFirst: read (until Expect) before writing
+	ReadFirst bool
 	// RetryTemporary: a Read that fails with a temporary net.Error (a timeout) is repeated
 	RetryTemporary bool
 	// Wrap, when set, is put between the library endpoint and the wire (transport fault injection)
@@ -65,6 +71,18 @@ type conn interface {
 }
 
 func runApp(c conn, v *View, a App) {
+	if a.ReadFirst {
+		b := a
+		b.ReadFirst, b.Writes, b.NoClose, b.CloseWriteAfterWrites = false, nil, true, false
+		runApp(c, v, b)
+		if v.ReadErr != nil {
+			if !a.NoClose {
+				c.Close()
+			}
+			return
+		}
+		a.Expect = -1
+	}
 	for _, w := range a.Writes {
 		_, err := c.Write(w)
 		v.WriteErrs = append(v.WriteErrs, err)
@@ -131,6 +149,28 @@ func GMEnd(cfg *gmtls.Config, client bool, a App, v *View, keep **gmtls.Conn) fu
 		}
 		if keep != nil {
 			*keep = c
+		}
+		if a.Implicit {
+			st0 := c.ConnectionState()
+			v.BeforeComplete = st0.HandshakeComplete
+			c.OCSPResponse()
+			v.VerifyHostnameBefore = c.VerifyHostname("x.invalid")
+			runApp(c, v, a)
+			st := c.ConnectionState()
+			v.Complete, v.Version, v.Suite, v.DidResume = st.HandshakeComplete, st.Version, st.CipherSuite, st.DidResume
+			for _, pc := range st.PeerCertificates {
+				v.PeerCerts = append(v.PeerCerts, pc.Raw)
+			}
+			if !v.Complete {
+				v.HandshakeErr = v.ReadErr
+				for _, e := range v.WriteErrs {
+					if e != nil {
+						v.HandshakeErr = e
+					}
+				}
+			}
+			v.Done = true
+			return nil
 		}
 		v.HandshakeErr = c.Handshake()
 		st := c.ConnectionState()
